@@ -154,6 +154,13 @@ func C19(c *Case) *Result {
 	}
 	var files []treeFile
 	dirs := []string{"", "sub", "sub/deep", "other"}
+	// special layouts at a fixed rate: a lone file in a nested sub-directory, the same base name in
+	// two directories, names that already carry the tool's extension, dot-files
+	special := t.Pick(5, 1, 1, 1)
+	if special == 1 {
+		nfiles = 1
+		dirs = []string{"sub/deep", "sub", "other/x/y"}
+	}
 	for i := 0; i < nfiles; i++ {
 		var n int
 		switch t.Pick(2, 4, 2, 1) {
@@ -168,11 +175,20 @@ func C19(c *Case) *Result {
 		}
 		shape := ShapeNames[t.Intn(len(ShapeNames))]
 		d := dirs[t.Intn(len(dirs))]
-		if nfiles == 1 {
+		if nfiles == 1 && t.Intn(3) == 0 {
 			d = ""
 		}
-		files = append(files, treeFile{Rel: filepath.Join(d, fmt.Sprintf("f%02d.%s", i, []string{"txt", "bin", "dat", "c"}[t.Intn(4)])), Data: GenData(shape, n, t.Seed())})
+		name := fmt.Sprintf("f%02d.%s", i, []string{"txt", "bin", "dat", "c"}[t.Intn(4)])
+		switch {
+		case special == 2 && i < 4:
+			name = "same.txt" // the same base name in different directories
+			d = []string{"", "sub", "sub/deep", "other"}[i]
+		case special == 3 && i%3 == 0:
+			name = []string{".hidden", "archive.knz", "data.knz.txt", "UPPER.TXT"}[t.Intn(4)] + fmt.Sprint(i)
+		}
+		files = append(files, treeFile{Rel: filepath.Join(d, name), Data: GenData(shape, n, t.Seed())})
 	}
+	res.Probes[fmt.Sprintf("layout.special.%d", special)]++
 	in := filepath.Join(root, "in")
 	if err := writeTree(in, files); err != nil {
 		return res.fail("harness-scratch", "%v", err)
@@ -210,7 +226,7 @@ func C19(c *Case) *Result {
 		desc += "/x64"
 	}
 	desc += fmt.Sprintf("/j%d/n%d", jobs, nfiles)
-	fam := t.Pick(4, 2, 5, 2)
+	fam := t.Pick(6, 2, 3, 2)
 	if c.Neutralise == "nokill" && fam == 2 {
 		fam = 0
 	}
@@ -283,6 +299,9 @@ func C19(c *Case) *Result {
 			}
 		}
 		mode := t.Pick(3, 2, 1, 1) // dir in place, dir to out dir, single file, stdin/stdout
+		if special != 0 && t.Intn(2) == 0 {
+			mode = 1
+		}
 		if nfiles > 1 && mode == 2 {
 			mode = 0
 		}
@@ -473,7 +492,7 @@ func C19(c *Case) *Result {
 		}
 		// kill points: all of them for short runs, otherwise around the application-level points plus random ones
 		var ks []int
-		if N <= 120 {
+		if N <= 60 {
 			for k := 1; k <= N; k++ {
 				ks = append(ks, k)
 			}
@@ -492,11 +511,11 @@ func C19(c *Case) *Result {
 					appIdx = append(appIdx, i+1)
 				}
 			}
-			for n := 0; n < 10 && len(appIdx) > 0; n++ {
+			for n := 0; n < 8 && len(appIdx) > 0; n++ {
 				p := appIdx[t.Intn(len(appIdx))]
 				add(p + t.Range(-1, 2))
 			}
-			for n := 0; n < 8; n++ {
+			for n := 0; n < 6; n++ {
 				add(1 + t.Intn(N))
 			}
 		}
